@@ -789,12 +789,16 @@ def _check_chain(c, mod, f, ex, ps, heads, ks, kind, direction):
     idx_style = False
     for h_ in heads:
         pt_, in_ = hd_syms(f, h_)
-        if not pt_ and len(in_) == 1 and len(heads) == 1:
-            idx_style = True          # index-based: m[posn + j] / c[posn + j] with one loop-carried index, the buffers addressed from their start
+        isidx = False
+        if not pt_ and len(in_) == 1 and (len(heads) == 1 or h_ == heads[0]):
+            isidx = True              # index-based: m[posn + j] / c[posn + j] with one loop-carried index, the buffers addressed from their start
+            if len(heads) == 1:
+                idx_style = True
         elif len(pt_) > 2 or len(in_) != 1 or not pt_:
             raise Broken("%s: expected one or two pointer cursors and one remaining length (or one index) carried by the data loop (found %d pointer, %d integer values): "
                          "unrecognised loop shape" % (f.name, len(pt_), len(in_)))
-        LI[h_] = {"ptrs": pt_, "ints": in_, "rem": ("hd", in_[0].id), "in": None, "out": None}
+        LI[h_] = {"ptrs": pt_, "ints": in_, "rem": ("hd", in_[0].id), "in": None, "out": None, "idx": isidx}
+    idx_first = LI[heads[0]]["idx"]
     hdr = heads[0]
     ptrs, ints = LI[hdr]["ptrs"], LI[hdr]["ints"]
     rem = LI[hdr]["rem"]
@@ -865,7 +869,7 @@ def _check_chain(c, mod, f, ex, ps, heads, ks, kind, direction):
             inits = {I.id: p.env.get(("init", I.id)) for I in ptrs + ints}
             want_n = Lf.s(A["mlen"]) if enc else Lf({A["clen"]: 1, 1: -8})
             ini_n = inits[ints[0].id]
-            if idx_style:
+            if idx_first:
                 if is_word(ini_n) or ini_n.const() is None:
                     raise Broken("%s: the data loop carries one integer that does not start at a constant (%s): neither a remaining length nor an index: unrecognised shape" % (f.name, ini_n))
                 c.ob(ini_n.const() == 0, "ADVANCE", "cursor-init", "the loop index starts at 0 (the buffers are addressed from their start)", "the loop index starts at %s: the first bytes are skipped" % ini_n)
@@ -900,8 +904,33 @@ def _check_chain(c, mod, f, ex, ps, heads, ks, kind, direction):
     LI[hdr]["in"], LI[hdr]["out"] = in_cur, out_cur
     # hand-over between consecutive data loops: nothing happens in between and the next loop continues with the same
     # cursors and the same remaining length
+    total_ = Lf.s(A["mlen"]) if enc else Lf({A["clen"]: 1, 1: -8})
     for h1, h2 in zip(heads, heads[1:]):
         tr = [p for p in ps if p.end[0] == "loop-entry" and p.end[1] == h2 and p.blocks and p.blocks[0] == h1]
+        if LI[h1]["idx"]:
+            # an index loop over the full words (an aligned fast path, say) followed by a cursor loop: the cursors must continue right behind the
+            # full words (buffer + 4 * (length / 4)) with the left-over length (length % 4)
+            for p in tr:
+                dv_ = [d_ for d_ in p.divs.values() if d_[3] == 4 and d_[2] == total_]
+                if len(dv_) != 1:
+                    raise Broken("%s: index-based data loop without a division of the data length by 4: unrecognised shape" % f.name)
+                qs_, rs_ = dv_[0][0], dv_[0][1]
+                inits = {I.id: p.env.get(("init", I.id)) for I in LI[h2]["ptrs"] + LI[h2]["ints"]}
+                for I in LI[h2]["ptrs"]:
+                    if inits[I.id] == Lf({A[in_name]: 1, qs_: 4}):
+                        LI[h2]["in"] = ("hdp", I.id)
+                    if inits[I.id] == Lf({A[out_name]: 1, qs_: 4}):
+                        LI[h2]["out"] = ("hdp", I.id)
+                ir_ = inits[LI[h2]["ints"][0].id]
+                okr_ = ir_ is not None and not is_word(ir_) and (ir_ == Lf.s(rs_) or ir_ == total_.add(Lf({qs_: 4}), -1))
+                okh = LI[h2]["in"] is not None and LI[h2]["out"] is not None and okr_ and not calls_of(p) and not mode.outs_of(p) and p.eqs.get(LI[h1]["rem"]) is None
+                xq_ = ex._range(p, Lf({LI[h1]["rem"]: 1, qs_: -1}))
+                c.ob(okh, "ADVANCE", "loop-handover", "after the full words the cursors continue at buffer + 4 * (length / 4) with length % 4 bytes left; nothing is processed in between",
+                     "after the index loop: cursors %s remaining %s calls %s" % ([repr(v) for k_, v in inits.items()], ir_, [e[0] for e in calls_of(p)]))
+                n += 1
+            if LI[h2]["in"] is None or LI[h2]["out"] is None:
+                raise Broken("%s: cursors of the second data loop cannot be related to the index loop before it: unrecognised shape" % f.name)
+            continue
         for p in tr:
             inits = {I.id: p.env.get(("init", I.id)) for I in LI[h2]["ptrs"] + LI[h2]["ints"]}
             for I in LI[h2]["ptrs"]:
@@ -920,7 +949,7 @@ def _check_chain(c, mod, f, ex, ps, heads, ks, kind, direction):
     total = Lf.s(A["mlen"]) if enc else Lf({A["clen"]: 1, 1: -8})
     for p in ps:
         h_ = p.blocks[0] if p.blocks else None
-        if idx_style and p.end[0] == "ret" and h_ in LI:
+        if h_ in LI and LI[h_]["idx"] and p.end[0] == "ret":
             dv = [d_ for d_ in p.divs.values() if d_[3] == 4 and d_[2] == total]
             if len(dv) != 1:
                 raise Broken("%s: index-based data loop without a division of the data length by 4 (full words / left-over bytes): unrecognised shape" % f.name)
@@ -942,6 +971,7 @@ def _check_chain(c, mod, f, ex, ps, heads, ks, kind, direction):
         s_in = static_in and h0 == hdr
         s_out = static_out and h0 == hdr
         P = [e for e in ev if e[0] == "P"]
+        idx_style = LI[h0]["idx"]
         if idx_style:
             # cursors of this path: the one symbolic offset at which the input / output buffer is accessed
             X = rem                                     # the loop index
